@@ -473,11 +473,21 @@ def monC05 (h : Hist) : Option String :=
             -- (served from the store without validation, the trailer fields named by the stored response's qualified
             --  no-cache are withheld like its header fields: C02)
             let named := if m = ri.n then [] else (Spec.noCacheFields Spec.rfc rp.resp.header).map canonicalHeaderKey
-            let sent' : Header := sent.filter fun (p : Str × Str) => !named.contains (canonicalHeaderKey p.1)
-            -- (whether they ARE withheld is C02's business; for C05 nothing may be added, altered or otherwise lost)
-            !x.res.bodyErr && ri.method = sGET && Header.canon got ≠ Header.canon sent' && Header.canon got ≠ Header.canon sent
+            -- hop-by-hop fields (the fixed ones and those the reply's Connection names) are removed from the TRAILER section
+            -- of what is stored as from the header section (RFC 9110 §7.6.1: "header or trailer field(s)"); a reply that is
+            -- only passed on may keep them or not
+            let hop := hopNames rp.resp.header
+            let sentE : Header := if m = ri.n then sent else sent.filter fun (p : Str × Str) => !hop.contains (canonicalHeaderKey p.1)
+            let sent' : Header := sentE.filter fun (p : Str × Str) => !named.contains (canonicalHeaderKey p.1)
+            let sentH : Header := sent.filter fun (p : Str × Str) => !hop.contains (canonicalHeaderKey p.1)
+            -- (whether the named ones ARE withheld is C02's business; for C05 nothing may be added, altered or otherwise lost)
+            !x.res.bodyErr && ri.method = sGET && Header.canon got ≠ Header.canon sent' && Header.canon got ≠ Header.canon sentE &&
+              !(m = ri.n && Header.canon got = Header.canon sentH)
           | _, _ => false) then
-        some s!"exchange {ri.n}: trailer fields [{showHdrs ((h.trailers.find? (·.1 = ri.n)).map (·.2) |>.getD [])}] differ from the trailer section the origin sent in exchange {m} [{showHdrs ((h.frame m k).map (·.2) |>.getD [])}]"
+        let got := (h.trailers.find? (·.1 = ri.n)).map (·.2) |>.getD []
+        match (if m = ri.n then none else (hopNames rp.resp.header).find? fun f => Header.has got f) with
+        | some f => some s!"exchange {ri.n}: hop-by-hop field {shw f} of the trailer section of exchange {m} was stored and replayed"
+        | none => some s!"exchange {ri.n}: trailer fields [{showHdrs got}] differ from the trailer section the origin sent in exchange {m} [{showHdrs ((h.frame m k).map (·.2) |>.getD [])}]"
       else if m = ri.n then none   -- forwarded on a miss: the body (and status) is what is required
       else
         -- served from the store: every end-to-end field of the origin response, nothing else but the cache's own
